@@ -24,6 +24,8 @@ def fn_units():
                            spec=PSR.cpsr_write_by_instr, contracts=base, assume=valid))
     out.append(method_unit('C12', Rg.spsr_write_by_instr, [('value', U(32)), ('bytemask', U(4))], on='regs',
                            spec=PSR.spsr_write_by_instr, contracts=base, assume=valid))
+    for u in out:
+        u.props.append('C19')          # what an unprivileged writer may change in the CPSR (A/I/F/M, SCR.AW/FW) is decided here
     return out
 
 
